@@ -281,3 +281,36 @@ Definition xarith : arith X := {|
   a_of_nat := fun n => Fin (inject_Z (Z.of_nat n));
   a_zero := Fin 0; a_one := Fin 1; a_two := Fin 2; a_half := Fin (1 # 2);
   a_eps := Fin (qpow2 52); a_pinf := PInf; a_ninf := NInf; a_nan := NaN |}.
+
+(* ------------------------------------------------------------------ vocabulary of the theorems
+   (exact instance) *)
+(* the finite (value, weight) pairs a program feeds into its digest; TDigest::add uses weight 1 *)
+Fixpoint inputs (p : prog X) : list (Q * Q) :=
+  match p with
+  | PNew _ => []
+  | PAdd p v => match v with Fin x => (x, 1%Q) :: inputs p | _ => inputs p end
+  | PAddW p v w => match v, w with Fin x, Fin y => (x, y) :: inputs p | _, _ => inputs p end
+  | PMerge a b => inputs a ++ inputs b
+  | PCompress p => inputs p
+  end.
+(* every explicit weight is a rational >= 1 *)
+Fixpoint wf_prog (p : prog X) : Prop :=
+  match p with
+  | PNew _ => True
+  | PAdd p _ => wf_prog p
+  | PAddW p _ w => wf_prog p /\ exists y, w = Fin y /\ (1 <= y)%Q
+  | PMerge a b => wf_prog a /\ wf_prog b
+  | PCompress p => wf_prog p
+  end.
+(* lo is the smallest / hi the largest value of a non-empty input list (up to ==) *)
+Definition is_lo (lo : Q) (l : list (Q * Q)) : Prop :=
+  (exists p, In p l /\ (fst p == lo)%Q) /\ forall p, In p l -> (lo <= fst p)%Q.
+Definition is_hi (hi : Q) (l : list (Q * Q)) : Prop :=
+  (exists p, In p l /\ (fst p == hi)%Q) /\ forall p, In p l -> (fst p <= hi)%Q.
+Definition wsum (l : list (Q * Q)) : Q := fold_right (fun p s => (snd p + s)%Q) 0%Q l.
+(* order and equality on X restricted to what the theorems say *)
+Definition xle (a b : X) : Prop :=
+  match a, b with Fin x, Fin y => (x <= y)%Q | _, _ => False end.
+Definition xeq (a b : X) : Prop :=
+  match a, b with Fin x, Fin y => (x == y)%Q | PInf, PInf | NInf, NInf | NaN, NaN => True
+  | _, _ => False end.
